@@ -262,3 +262,25 @@ def seed_from_env(default=1):
         return int(os.environ.get("VERIF_SEED", default))
     except ValueError:
         return default
+
+
+def source_basis():
+    """Which source files differ from the revision the model was last reviewed against
+    (model_basis.json). Informational: recorded in the evidence, never an alarm by itself."""
+    import hashlib
+    try:
+        basis = json.load(open(os.path.join(VERIF, "model_basis.json")))
+    except Exception:
+        return None
+    changed = []
+    seen = set()
+    src = os.path.join(REPO, "src")
+    for dp, _, fs in os.walk(src):
+        for f in fs:
+            rel = os.path.relpath(os.path.join(dp, f), REPO)
+            seen.add(rel)
+            h = hashlib.sha256(open(os.path.join(dp, f), "rb").read()).hexdigest()
+            if basis["files"].get(rel) != h:
+                changed.append(rel)
+    changed += [f for f in basis["files"] if f not in seen]
+    return {"model_reviewed_against": basis["commit"], "source_files_changed_since": sorted(changed)}
